@@ -184,6 +184,15 @@ def check(ctx):
         else:
             a0, a1, a2 = (subst(b_[k], defs_) for k in names_)
             lbl = a0.value if isinstance(a0, ast.Constant) else ast.unparse(a0)
+            fparams = [a_.arg for a_ in s.func.args.args] if s.func is not None else []
+            if isinstance(a0, ast.Name) and a0.id in fparams and s.cls is not None:
+                # the label is a parameter of a record helper (`_record_part_datapoint(label, part)`): the sites of kind <label> are the calls of
+                # the helper with that constant label
+                for cs_ in inv.method_calls(P, s.func.name):
+                    bnd = dv.bind_method_call(P, cs_.cls, cs_.node) if cs_.cls is not None else None
+                    v_ = (bnd or {}).get(a0.id)
+                    if isinstance(v_, ast.Constant):
+                        labels.setdefault(str(v_.value), []).append(cs_.ctx)
             labels.setdefault(str(lbl), []).append(s.ctx)
             sub = ast.unparse(a1)
             if s.cls is not None and Asset in s.cls.mro:
